@@ -14,6 +14,8 @@
    parsed trees that the Go types and the parser guarantee (a template body is
    a ListNode, soydoc params are SoyDocParamNodes, a {let} is a direct child of
    a ListNode); the harness evaluates them on every parsed bundle. *)
+(* source tie by translation: the lemmas of these files are obligations of this property *)
+From Soy Require Import Proofs.SourceTieChecker.
 From Soy Require Import Model.Bytes Model.Num Model.Values Model.Outcome Model.Ast Model.Interp Model.RefView Model.Checker
   Spec.Wf Proofs.CheckerProofs Proofs.CheckerInterpProofs.
 Open Scope N_scope.
